@@ -91,6 +91,7 @@ CHECKS = {
             'patterns must match their constructed instances.',
             'Trusts vf/shadow.py substitution / beta / eta.',
             'DESIGN.md 2 C09'),
+    'C13': ' Directed histories whose last step (revert_intro of an assumption cited from inside a nested block) must be refused; generic failures are keyed by method, failing line and exception, bad citations by their kind.',
     'C15': ('sys.monitoring PY_RETURN hooks on the nested functions of sat.solve_cnf (trail / learned-clause invariants, logical '
             'termination bound) + brute-force truth tables + resolution-trace replay; Tseitin theorems through the proof checker',
             'Exploration, exhaustive on finite sub-spaces: all CNFs over 2 variables with <= 3 clauses and 3 variables with <= 2 '
@@ -174,19 +175,23 @@ CHECKS = {
 
 # history / state-leak workloads added after the seeded-break rounds (appended to the level text)
 EXTRA = {
-    'C01': ' Directed scenarios: substitution that fixes a schematic type variable only through its instances, open instances under binders, one hypothesis object placed at two binder depths by the kernel itself.',
+    'C01': ' Directed scenarios: substitution that fixes a schematic type variable only through its instances, open instances under binders, one hypothesis object placed at two binder depths by the kernel itself, hypotheses whose type variable occurs only in schematic variables; every accepted script is re-run as ONE block whose lines carry stated sequents (one possibly false) with gaps disallowed.',
     'C02': ' W-HIST: a proof object is checked, edited as the editor edits it (item replaced / arguments or citations changed in place) and checked again; the verdict must be the verdict of a fresh object with the same content.',
-    'C03': ' Every sub-object of a hashed term is compared (==, hash) with a freshly built equal term, parent hashed first and parts first, incl. right-nested conj/disj chains.',
+    'C03': ' Every sub-object of a hashed term is compared (==, hash) with a freshly built equal term, parent hashed first and parts first, incl. right-nested conj/disj chains; subst that has to instantiate type variables occurring only in schematic variables; contract on dest_abs (fresh variable, re-abstraction gives the abstraction back).',
     'C04': ' W-HIST for auto (premise / hypothesis-free premise / no premise in both orders); arguments retyped nat<->int<->real; generated goals at all three numeric types offered to every arithmetic macro that has an expansion.',
-    'C05': ' W-HIST: a decided goal is released and a different goal of the same shape is allocated on the same address (id reuse).',
-    'C06': ' W-HIST: a call that fails inside the translation after asserting the coming goal as its premise, then the goal; solveset memo differential.',
-    'C07': ' W-HIST: memo differential and reprint-after-composite, judged by whether the text reads back to the term.',
-    'C08': ' W-HIST: constants redeclared at another type in ad-hoc theories; directed terms whose binder types follow only through a chain of nested instantiations.',
-    'C10': ' W-HIST: the same terms normalised under a limited and under the full nat theory in both orders.',
-    'C12': ' The dump also records what the accessors (get_theorem, get_term_sig) hand out, and every load is followed by look-ups as a user of the theory makes them.',
+    'C05': ' W-HIST: a decided goal is released and a different goal of the same shape is allocated on the same address (id reuse). Goals whose irrational value has a whole-number double; mixed variable / numeral nat subtraction under of_nat.',
+    'C06': ' W-HIST: a call that fails inside the translation after asserting the coming goal as its premise, then the goal; solveset memo differential. Equalities between function variables, quantifiers whose variable occurs only after an inner binder, SymPy goals about a variable the premise does not bound and at type nat / int.',
+    'C07': ' W-HIST: memo differential and reprint-after-composite, judged by whether the text reads back to the term. Terms containing both faces of equals (= and <-->).',
+    'C08': ' W-HIST: constants redeclared at another type in ad-hoc theories; a failing inference inside a nested context followed by inference in the enclosing one; directed terms whose binder types follow only through a chain of nested instantiations; ill-typed skeletons that clash two declared type variables.',
+    'C09': ' Schematic heads applied to a mix of bound variables and already instantiated schematic variables under several binders (pre-seeded and matched earlier), with targets that mention a bound variable missing from the arguments.',
+    'C10': ' W-HIST: the same terms normalised under a limited and under the full nat theory in both orders. Combinator terms whose binders are named like their free variables.',
+    'C11': ' Schematic stray variables on right-hand sides; inductive predicates declared on an overloaded library constant with a rule at another instance.',
+    'C12': ' The dump also records what the accessors (get_theorem, get_term_sig) hand out, and every load is followed by look-ups as a user of the theory makes them; histories with an explicit metadata refresh; a copy of the real library in which real.json / set.json / nat.json is rewritten between two loads.',
+    'C13': ' Directed histories whose last step (revert_intro of an assumption cited from inside a nested block) must be refused; generic failures are keyed by method, failing line and exception, bad citations by their kind.',
     'C15': ' Tseitin formulas whose atoms are all named like the introduced variables (x<i>, one-/two-digit boundary, leading zeros).',
-    'C18': ' End-to-end scripts with nested / multi-assumption subproofs, assumptions after a closed inner block, blocks without steps, first-order bind blocks; structural oracle on every accepted closing step (premise = last step of its own block, local assumptions discharged).',
-    'C19': ' API histories: forward through Calculation.perform_rule, go back, redo; redone steps judged against the substitutions of the steps still in the calculation. Directed interval arithmetic over a systematic family of ranges.',
+    'C18': ' End-to-end scripts with nested / multi-assumption subproofs, assumptions after a closed inner block, blocks without steps, first-order bind blocks; structural oracle on every accepted closing step (premise = last step of its own block, local assumptions discharged). Directed templates carry their name in the mechanism key (integer rounding of non-multiple bounds, a resolved pivot returning in a later premise, ...).',
+    'C19': ' API histories: forward through Calculation.perform_rule, go back, redo; redone steps judged against the substitutions of the steps still in the calculation. Directed interval arithmetic over a systematic family of ranges; even-root scenarios; a violated inner call is keyed together with the composite rule it was made for.',
+    'C20': ' Constant-flow programs (constants assigned and then used in subtractions / products whose result is the left operand of + or -).',
 }
 
 NOT_YET = {}
